@@ -44,6 +44,7 @@ def violation_class(v):
 # --------------------------------------------------------------------------
 
 _INIT = {}
+_WORKER_STATE = {'seq': 0}
 
 
 def _worker_init():
@@ -76,6 +77,10 @@ def _worker_chunk(prop, tier, run_seeds, want_program):
             program = mod.generate(rs, tier)
             res = _execute_guarded(mod, program)
             res['run_seed'] = rs
+            res['pid'] = os.getpid()
+            res['seq'] = _WORKER_STATE['seq']
+            _WORKER_STATE['seq'] += 1
+            res.pop('log', None)
             if want_program or res.get('violations') or res.get('harness_error'):
                 res['program'] = program
             out.append(res)
@@ -117,10 +122,13 @@ class Aggregate:
         self.samples = []
         self.first_seed = None
         self.last_seed = None
+        self.by_worker = {}
 
     def add(self, res):
         self.runs += 1
         rs = res['run_seed']
+        if 'pid' in res:
+            self.by_worker.setdefault(res['pid'], []).append((res['seq'], rs))
         self.first_seed = rs if self.first_seed is None else min(self.first_seed, rs)
         self.last_seed = rs if self.last_seed is None else max(self.last_seed, rs)
         if res.get('harness_error'):
@@ -321,6 +329,11 @@ def replay(path, log=print):
     prop = rep['property']
     env.ensure_repo_importable()
     mod = load(prop)
+    if rep['program'].get('process_history'):
+        rc = replay_process_history(rep, log)
+        if rc == 1:
+            log(f'VIOLATION property={prop} replay={path}')
+        return rc
     res = _execute_guarded(mod, rep['program'])
     if res.get('harness_error'):
         log('HARNESS-ERROR during replay:\n' + res['harness_error'])
@@ -416,10 +429,30 @@ def check(prop, tier, seed, budget_s=None, max_runs=None, workers=None,
         pre = mod.fixed_catalogue(tier, workers, log)
         extra.update(pre.get('coverage', {}))
         pre_violations = pre.get('violations', [])
-    agg, wall, _ = run_batch(prop, tier, seed, budget_s, max_runs, workers,
-                             log=log)
+    agg, wall, digests = run_batch(prop, tier, seed, budget_s, max_runs,
+                                   workers, log=log)
     for rs, program, rec in pre_violations:
         agg.violations.append((rs, program, rec))
+    process_violations = []
+    if getattr(mod, 'CROSS_PROCESS_SAMPLE', None) and not agg.harness_errors \
+            and not agg.violations:
+        t1 = time.time()
+        n_cmp, process_violations = cross_process_check(
+            prop, tier, agg, digests, workers,
+            mod.CROSS_PROCESS_SAMPLE[tier], log)
+        extra['process_history_replica'] = {
+            'runs_reexecuted_in_pristine_process': n_cmp,
+            'digest_mismatches': len(process_violations),
+            'wall_s': round(time.time() - t1, 1),
+            'what': 'a sample of runs (those executed latest in each batch '
+                    'worker, i.e. after the longest process history) is '
+                    'executed again in a freshly forked pristine process; '
+                    'event-log digests (bitwise result digests of every '
+                    'operation) must agree',
+        }
+        log(f'# {prop} process-history replica: {n_cmp} runs re-executed in '
+            f'pristine processes, {len(process_violations)} mismatches, '
+            f'{time.time() - t1:.1f}s')
     if agg.harness_errors:
         rs, text, program = agg.harness_errors[0]
         log(f'HARNESS-ERROR in run_seed={rs} ({len(agg.harness_errors)} in total):\n{text}')
@@ -451,9 +484,169 @@ def check(prop, tier, seed, budget_s=None, max_runs=None, workers=None,
                 log(f'VIOLATION property={prop} replay={path}')
                 reported += 1
                 exit_code = 1
+    for rs, program, rec in process_violations:
+        known = match_known(rec, findings)
+        if known is not None:
+            log(f'KNOWN-FINDING: property={prop} {known.get("what")}')
+            continue
+        path = write_replay(prop, rs, program, rec, None, 0)
+        log(f'violation: {json.dumps(rec, default=_json_default)}')
+        log(f'VIOLATION property={prop} replay={path}')
+        reported += 1
+        exit_code = 1
     total_wall = time.time() - t0
     write_evidence(prop, tier, seed, agg, total_wall, mod, reported, extra)
     log(f'# {prop}: runs={agg.runs} distinct_nontrivial={len(agg.nontrivial_signatures)} '
         f'violations={reported} known_findings={len(known_printed)} '
         f'wall={total_wall:.1f}s ({agg.runs / max(wall, 1e-9) * 3600:.0f} runs/h)')
     return exit_code
+
+
+# --------------------------------------------------------------------------
+# process-history oracle (cross-process replica)
+# --------------------------------------------------------------------------
+# A result must not depend on what the *process* did before (module-level
+# caches, lru_cache'd helpers, class attributes).  The in-process replica of
+# C20 cannot see such state: world and replica share it.  So a sample of runs
+# is executed again in a pristine child process (forked from a process that
+# imported pb_bss but never executed anything) and the event-log digest must
+# equal the one obtained in the long-lived batch worker.
+
+def _child_run(conn, prop, tier, history, target, want_log):
+    try:
+        mod = load(prop)
+        for item in history:
+            p = mod.generate(item, tier) if isinstance(item, int) else item
+            _execute_guarded(mod, p)
+        p = mod.generate(target, tier) if isinstance(target, int) else target
+        res = _execute_guarded(mod, p)
+        conn.send({'digest': res.get('digest'),
+                   'log': res.get('log') if want_log else None,
+                   'harness_error': res.get('harness_error'),
+                   'violations': res.get('violations', [])})
+    except BaseException as e:   # noqa
+        conn.send({'harness_error': repr(e)})
+    finally:
+        conn.close()
+
+
+def _pristine_task(prop, tier, history, target, want_log=False):
+    """Runs in a pool worker that never executes programs itself: forks a
+    child that executes ``history`` then ``target`` (run seeds or programs)."""
+    ctx = multiprocessing.get_context('fork')
+    parent, child = ctx.Pipe(duplex=False)
+    proc = ctx.Process(target=_child_run,
+                       args=(child, prop, tier, history, target, want_log))
+    proc.start()
+    child.close()
+    out = {'harness_error': 'child died'}
+    if parent.poll(RUN_TIMEOUT_S):
+        try:
+            out = parent.recv()
+        except EOFError:
+            pass
+    proc.join(10)
+    if proc.is_alive():
+        proc.kill()
+    return out
+
+
+def _first_log_difference(log_a, log_b):
+    for i, (x, y) in enumerate(zip(log_a or [], log_b or [])):
+        if x != y:
+            return i, x, y
+    return None
+
+
+def cross_process_check(prop, tier, agg, digests, workers, sample, log=print):
+    """Returns (n_compared, violations[(run_seed, program, record)])."""
+    mod = load(prop)
+    # prefer runs executed late in a worker's life (long process history)
+    cand = []
+    for pid, runs in agg.by_worker.items():
+        runs = sorted(runs)
+        seeds = [rs for _, rs in runs]
+        for i, rs in enumerate(seeds):
+            cand.append((i, rs, pid))
+    cand.sort(reverse=True)
+    cand = [c for c in cand if c[1] in digests][:sample]
+    hist_of = {pid: [rs for _, rs in sorted(runs)]
+               for pid, runs in agg.by_worker.items()}
+    out = []
+    with make_pool(workers) as pool:
+        futs = [(c, pool.submit(_pristine_task, prop, tier, [], c[1]))
+                for c in cand]
+        mismatches = []
+        for (i, rs, pid), f in futs:
+            r = f.result()
+            if r.get('harness_error'):
+                raise RuntimeError('cross-process replica failed: '
+                                   + str(r['harness_error'])[-500:])
+            if r['digest'] != digests[rs]:
+                mismatches.append((i, rs, pid, r['digest']))
+        for i, rs, pid, solo_digest in mismatches[:3]:
+            history = hist_of[pid][:i]
+
+            def differs(h):
+                r = _pristine_task(prop, tier, h, rs)
+                return r.get('digest') is not None and r['digest'] != solo_digest
+
+            # confirm, then minimise the history (ddmin, complement-first)
+            if not pool.submit(_pristine_task, prop, tier, history, rs).result() \
+                    .get('digest') != solo_digest:
+                pass
+            n = 2
+            while len(history) >= 2:
+                size = max(1, len(history) // n)
+                subsets = [history[k:k + size] for k in range(0, len(history), size)]
+                futs2 = [pool.submit(_pristine_task, prop, tier,
+                                     [x for x in history if x not in sub], rs)
+                         for sub in subsets]
+                reduced = False
+                for sub, f2 in zip(subsets, futs2):
+                    r2 = f2.result()
+                    if r2.get('digest') is not None and r2['digest'] != solo_digest:
+                        history = [x for x in history if x not in sub]
+                        n = max(n - 1, 2)
+                        reduced = True
+                        break
+                if not reduced:
+                    if size == 1:
+                        break
+                    n = min(len(history), n * 2)
+            a = pool.submit(_pristine_task, prop, tier, [], rs, True).result()
+            b = pool.submit(_pristine_task, prop, tier, history, rs, True).result()
+            d = _first_log_difference(a.get('log'), b.get('log'))
+            entry = 'process'
+            detail = 'event log differs'
+            if d:
+                entry = str(d[1][1]) if isinstance(d[1], list) and len(d[1]) > 1 else 'process'
+                detail = (f'operation {d[0]} ({entry}) gives {d[2]} after the '
+                          f'process executed {len(history)} earlier program(s), '
+                          f'but {d[1]} in a pristine process')
+            rec = {'property': prop, 'oracle': 'O3-process-history',
+                   'entry': entry, 'detail': detail}
+            program = {'prop': prop, 'process_history': True, 'tier': tier,
+                       'history': [mod.generate(h, tier) for h in history],
+                       'target': mod.generate(rs, tier)}
+            out.append((rs, program, rec))
+    return len(cand), out
+
+
+def replay_process_history(rep, log=print):
+    prop = rep['property']
+    program = rep['program']
+    tier = program.get('tier', 'quick')
+    a = _pristine_task(prop, tier, [], program['target'], True)
+    b = _pristine_task(prop, tier, program['history'], program['target'], True)
+    if a.get('harness_error') or b.get('harness_error'):
+        log('HARNESS-ERROR during replay: ' + str(a.get('harness_error') or b.get('harness_error')))
+        return 2
+    if a['digest'] != b['digest']:
+        d = _first_log_difference(a.get('log'), b.get('log'))
+        log(f'replay reproduces: pristine digest {a["digest"]} != digest after '
+            f'{len(program["history"])} earlier program(s) {b["digest"]}; first '
+            f'difference: {d}')
+        return 1
+    log('replay did NOT reproduce: digests agree (' + str(a['digest']) + ')')
+    return 0
